@@ -55,6 +55,7 @@ type Event struct {
 	Current  interface{}
 	Err      string // "" ok; else sanitized message
 	Cancel   bool
+	CauseCancel bool // mwend: the cause of the error is context.Canceled (whatever the state of the computation's context)
 	IsMut    bool
 	// exec / touch
 	Field string
@@ -633,7 +634,10 @@ func (r *Recorder) middleware(input *graphql.ComputationInput, next graphql.Midd
 	if out.Error != nil {
 		e.Err = graphql.SanitizeError(out.Error)
 		// the silent path of server.go: the cause is context.Canceled and the computation's own context is cancelled
-		e.Cancel = graphql.ErrorCause(out.Error) == context.Canceled && input.Ctx.Err() != nil
+		// (the connection looks at the context a moment later than this observer: if the context is alive here, which
+		// path the connection took is read off what it did next, see analyze)
+		e.CauseCancel = graphql.ErrorCause(out.Error) == context.Canceled
+		e.Cancel = e.CauseCancel && input.Ctx.Err() != nil
 	} else {
 		e.Current = roundTrip(out.Current)
 		if m, ok := out.Current.(map[string]interface{}); ok {
